@@ -1,7 +1,10 @@
 //! C14 — restore yields exactly the snapshot and never writes outside the target.
-//!   c14 file <chunk> <content> <old|~> <verify 0|1> <sparse 0|1> <mtime-equal 0|1>
+//!   c14 file <chunk> <content> <old|~> <verify 0|1> <sparse 0|1> <dst-mtime> <node-mtime|~>
 //!        one file `f` backed up with the fixed-size chunker (blobs = `chunk`-byte pieces of `content`), destination
 //!        pre-state `dest/f = old` (`~` absent), real prepare_restore + restore; observation: bytes of `dest/f`.
+//!        mtimes as `<secs>.<nanos>` (nanosecond resolution: `add_file` trusts an existing file of the node's size only
+//!        if the two timestamps are equal to the nanosecond); node mtime `~` = the node carries none.
+//!        Short form `… <sparse> <mtime-equal 0|1>`: node mtime 1600000000.0, destination the same / 77 s later.
 //!   c14 join <base> <item>          `LocalDestination::path` = `Path::join`, lexically resolved; `in` / `out` of base
 //!   c14 hostile <kind> <name-hex>   snapshot whose tree holds a file node with a hostile name (crafted through a
 //!        `ReadSource` whose node name differs from its path); restore into dest with sentinels around it.
@@ -52,17 +55,70 @@ fn opts_of(verify: bool, sparse: bool, delete: bool) -> RestoreOptions {
 }
 
 fn set_mtime(p: &Path, secs: i64) {
-    let t = std::time::UNIX_EPOCH + std::time::Duration::from_secs(secs as u64);
-    if let Ok(f) = std::fs::File::options().write(true).open(p) {
-        _ = f.set_modified(t);
+    _ = set_mtime_ns(p, (secs, 0));
+}
+
+/// (seconds, nanoseconds) — `jiff::Timestamp::new`
+type Mt = (i64, u32);
+
+/// sets the mtime at nanosecond resolution; `false` if the file system did not keep exactly that value
+fn set_mtime_ns(p: &Path, (secs, nanos): Mt) -> bool {
+    let t = std::time::UNIX_EPOCH + std::time::Duration::new(secs as u64, nanos);
+    let Ok(f) = std::fs::File::options().write(true).open(p) else { return false };
+    f.set_modified(t).is_ok() && std::fs::metadata(p).and_then(|m| m.modified()).ok() == Some(t)
+}
+
+fn parse_mt(s: &str) -> Option<Mt> {
+    let (a, b) = s.split_once('.')?;
+    let ok = |x: &str| !x.is_empty() && x.bytes().all(|c| c.is_ascii_digit());
+    if !ok(a) || !ok(b) {
+        return None;
+    }
+    let (a, b) = (a.parse::<i64>().ok()?, b.parse::<u32>().ok()?);
+    (b < 1_000_000_000 && a < 4_000_000_000).then_some((a, b))
+}
+
+/// A `MemSource` whose nodes carry mtimes at nanosecond resolution (`SrcEntry::mtime_s` is whole seconds): source path ->
+/// mtime of its node (`None` = the node has no mtime).
+#[derive(Clone)]
+struct NanoSource {
+    inner: MemSource,
+    mtimes: BTreeMap<PathBuf, Option<Mt>>,
+}
+
+impl ReadSource for NanoSource {
+    type Open = Cursor<Vec<u8>>;
+    type Iter = std::vec::IntoIter<RusticResult<ReadSourceEntry<Self::Open>>>;
+    fn size(&self) -> RusticResult<Option<u64>> {
+        Ok(None)
+    }
+    fn entries(&self) -> Self::Iter {
+        let v: Vec<_> = self
+            .inner
+            .entries()
+            .map(|e| {
+                e.map(|mut e| {
+                    if let Some(m) = self.mtimes.get(&e.path) {
+                        e.node.meta.mtime = m.map(|(s, n)| rustic_core::jiff::Timestamp::new(s, n as i32).expect("timestamp"));
+                    }
+                    e
+                })
+            })
+            .collect();
+        v.into_iter()
     }
 }
 
-fn file_case(chunk: usize, content: &[u8], old: Option<Vec<u8>>, verify: bool, sparse: bool, mtime_eq: bool) -> String {
+fn backup_nano(h: &RepoHandle, src: &NanoSource) -> RusticResult<SnapshotFile> {
+    let repo = h.open()?.to_indexed_ids()?;
+    repo.archive(&BackupOptions::default(), src, SnapshotFile::default(), &[PathBuf::from(SRC_ROOT)])
+}
+
+fn file_case(chunk: usize, content: &[u8], old: Option<Vec<u8>>, verify: bool, sparse: bool, dm: Mt, nm: Option<Mt>) -> String {
     let cfg = ConfigOptions::default().set_chunker(Chunker::FixedSize).set_chunk_size(bytesize::ByteSize(chunk as u64));
     let Ok((h, _)) = RepoHandle::init(MemBackend::new(), None, &cfg) else { return "err:init".into() };
-    let src = MemSource::new(vec![SrcEntry::file(&[b"f"], content)]);
-    let Ok(snap) = crate::repo::backup(&h, &src, &BackupOptions::default(), SnapshotFile::default()) else { return "err:backup".into() };
+    let src = NanoSource { inner: MemSource::new(vec![SrcEntry::file(&[b"f"], content)]), mtimes: BTreeMap::from([(PathBuf::from(SRC_ROOT).join("f"), nm)]) };
+    let Ok(snap) = backup_nano(&h, &src) else { return "err:backup".into() };
     let Ok(repo) = h.open().and_then(Repository::to_indexed) else { return "err:open".into() };
     let tmp = tempfile::tempdir().expect("tempdir");
     let dest = tmp.path().join("dest");
@@ -70,7 +126,9 @@ fn file_case(chunk: usize, content: &[u8], old: Option<Vec<u8>>, verify: bool, s
     let f = dest.join("f");
     if let Some(o) = &old {
         std::fs::write(&f, o).unwrap();
-        set_mtime(&f, if mtime_eq { SNAP_MTIME } else { SNAP_MTIME + 77 });
+        if !set_mtime_ns(&f, dm) {
+            return "err:file-system-does-not-keep-nanosecond-mtimes".into();
+        }
     }
     match restore_with(&repo, &snap, &dest, &opts_of(verify, sparse, false)) {
         Ok(()) => {}
@@ -262,11 +320,22 @@ fn tree_case(seed: u64) -> String {
         entries.push(if rng.chance(1, 2) { SrcEntry::dir(&[&name]) } else { SrcEntry::dir(&[b"d", &name]) });
     }
     let src = MemSource::new(entries);
+    // node mtimes at nanosecond resolution (a few nodes without mtime)
+    let mut node_mt: BTreeMap<PathBuf, Option<Mt>> = BTreeMap::new();
+    for e in &src.entries {
+        if matches!(e.kind, SrcKind::File(_)) {
+            let nanos = *rng.pick(&[0u32, 1, 250_000_000, 999_999_999, 123_456_789]);
+            _ = node_mt.insert(MemSource::path_of(e), if rng.chance(1, 12) { None } else { Some((SNAP_MTIME, nanos)) });
+        }
+    }
+    let nsrc = NanoSource { inner: src.clone(), mtimes: node_mt.clone() };
     let cfg = ConfigOptions::default().set_chunker(Chunker::FixedSize).set_chunk_size(bytesize::ByteSize(4096));
     let Ok((h, _)) = RepoHandle::init(MemBackend::new(), None, &cfg) else { return "err:init".into() };
-    let Ok(snap) = crate::repo::backup(&h, &src, &BackupOptions::default(), SnapshotFile::default()) else { return "err:backup".into() };
+    let Ok(snap) = backup_nano(&h, &nsrc) else { return "err:backup".into() };
     let Ok(repo) = h.open().and_then(Repository::to_indexed) else { return "err:open".into() };
-    let (verify, sparse, delete) = (rng.chance(1, 2), rng.chance(1, 3), rng.chance(1, 2));
+    let (verify, sparse, delete, no_ownership) = (rng.chance(1, 2), rng.chance(1, 3), rng.chance(1, 2), rng.chance(3, 4));
+    // files accepted unread by design: no verification, the node's size, mtime equal to the node's to the nanosecond
+    let mut trusted: std::collections::BTreeSet<PathBuf> = std::collections::BTreeSet::new();
     let tmp = tempfile::tempdir().expect("tempdir");
     let outer = tmp.path().join("outer");
     let dest = outer.join("dest");
@@ -344,7 +413,24 @@ fn tree_case(seed: u64) -> String {
                     }
                 }
                 if p.is_file() {
-                    set_mtime(&p, SNAP_MTIME + 5);
+                    // mtime of the existing file: equal to the node's to the nanosecond | only the nanosecond part differs (later /
+                    // earlier) | whole seconds differ (later / earlier)
+                    let nm = node_mt.get(&MemSource::path_of(e)).copied().flatten();
+                    let (ns, nn) = nm.unwrap_or((SNAP_MTIME, 0));
+                    let dm = match rng.below(8) {
+                        0 | 1 => (ns, nn),
+                        2 => (ns, if nn == 999_999_999 { 5 } else { nn + 1 + rng.below(u64::from(999_999_999 - nn)) as u32 }),
+                        3 => (ns, if nn == 0 { 999_999_990 } else { rng.below(u64::from(nn)) as u32 }),
+                        4 | 5 => (ns + 1 + rng.below(5) as i64, nn),
+                        6 => (ns - 1 - rng.below(5) as i64, nn),
+                        _ => (ns + 1, 0),
+                    };
+                    if !set_mtime_ns(&p, dm) {
+                        return "err:file-system-does-not-keep-nanosecond-mtimes".into();
+                    }
+                    if !verify && nm == Some(dm) && std::fs::metadata(&p).is_ok_and(|m| m.len() == c.len() as u64) {
+                        _ = trusted.insert(p.clone());
+                    }
                 }
             }
             SrcKind::Symlink(_) => {}
@@ -362,7 +448,7 @@ fn tree_case(seed: u64) -> String {
         extras.push(p.strip_prefix(&dest).unwrap().to_string_lossy().to_string());
     }
     let before_extras = snapshot_of_dir(&dest);
-    let res = restore_with(&repo, &snap, &dest, &opts_of(verify, sparse, delete));
+    let res = restore_with(&repo, &snap, &dest, &opts_of(verify, sparse, delete).no_ownership(no_ownership));
     let _ = type_changed;
     if std::fs::read(outer.join("sentinel")).ok().as_deref() != Some(b"S") || std::fs::read(outer.join("dest-sibling")).ok().as_deref() != Some(b"T") {
         return "oracle-fail:sentinel-touched".into();
@@ -378,7 +464,9 @@ fn tree_case(seed: u64) -> String {
         let rel: String = e.path.iter().map(|c| String::from_utf8_lossy(c).to_string()).collect::<Vec<_>>().join("/");
         match &e.kind {
             SrcKind::File(c) => {
-                if after.get(&rel) != Some(c) {
+                // (a trusted file is not read: the statement demands the snapshot's content only "with verification of existing
+                // files enabled or their size/mtime differing" — at full timestamp resolution)
+                if !trusted.contains(&dest.join(&rel)) && after.get(&rel) != Some(c) {
                     // DESIGN §7 #13: sparse restore over pre-existing non-zero data
                     return if zero_hazard { "oracle-fail:sparse-over-existing-data".into() } else { format!("oracle-fail:content-differs:v{}s{}d{}", u8::from(verify), u8::from(sparse), u8::from(delete)) };
                 }
@@ -684,13 +772,22 @@ fn plan_case(backups: &str, which: &str, dsts: &str) -> String {
 pub fn exec(t: &[&str]) -> String {
     let t: Vec<String> = t.iter().map(|s| (*s).to_string()).collect();
     guarded(move || match t.iter().map(String::as_str).collect::<Vec<_>>().as_slice() {
-        ["file", chunk, content, old, v, s, m] => {
+        ["file", chunk, content, old, v, s, rest @ ..] if rest.len() == 1 || rest.len() == 2 => {
             let (Ok(chunk), Some(content)) = (chunk.parse::<usize>(), data_of(content)) else { return "bad-op".into() };
             let old = if *old == "~" { None } else { let Some(o) = data_of(old) else { return "bad-op".into() }; Some(o) };
-            if chunk == 0 || ![*v, *s, *m].iter().all(|x| *x == "0" || *x == "1") {
+            if chunk == 0 || ![*v, *s].iter().all(|x| *x == "0" || *x == "1") {
                 return "bad-op".into();
             }
-            file_case(chunk, &content, old, *v == "1", *s == "1", *m == "1")
+            let (dm, nm) = match rest {
+                ["1"] => ((SNAP_MTIME, 0), Some((SNAP_MTIME, 0))),
+                ["0"] => ((SNAP_MTIME + 77, 0), Some((SNAP_MTIME, 0))),
+                [dm, nm] => {
+                    let (Some(dm), Some(nm)) = (parse_mt(dm), if *nm == "~" { Some(None) } else { parse_mt(nm).map(Some) }) else { return "bad-op".into() };
+                    (dm, nm)
+                }
+                _ => return "bad-op".into(),
+            };
+            file_case(chunk, &content, old, *v == "1", *s == "1", dm, nm)
         }
         ["join", base, item] => {
             let (Some(b), Some(i)) = (unhex(base), unhex(item)) else { return "bad-op".into() };
@@ -818,6 +915,43 @@ fn gen_walk(rng: &mut Rng, prefix: &str, depth: usize, side: u8, ds: &mut Vec<St
     }
 }
 
+/// (destination mtime, node mtime).  `rel`: 0 = equal to the nanosecond; 1 / 2 = the destination file is later / earlier within
+/// the SAME second (only the nanosecond part differs); 3 / 4 = later / earlier by whole seconds with the same nanosecond part;
+/// 5 = less than a second apart across a second boundary (both parts differ).
+fn gen_mtimes(rng: &mut Rng, rel: u64) -> (Mt, Mt) {
+    const NS: [u32; 6] = [0, 1, 250_000_000, 500_000_000, 999_999_000, 999_999_999];
+    let secs = SNAP_MTIME + rng.below(3) as i64;
+    let mut pick = || if rng.chance(1, 2) { *rng.pick(&NS) } else { rng.below(1_000_000_000) as u32 };
+    let a = pick();
+    let mut b = pick();
+    if b == a {
+        b = (a + 1) % 1_000_000_000;
+    }
+    let (lo, hi) = (a.min(b), a.max(b));
+    let d = 1 + rng.below(3) as i64;
+    match rel {
+        0 => ((secs, a), (secs, a)),
+        1 => ((secs, hi), (secs, lo)),
+        2 => ((secs, lo), (secs, hi)),
+        3 => ((secs + d, a), (secs, a)),
+        4 => ((secs - d, a), (secs, a)),
+        _ => ((secs + 1, lo), (secs, hi)),
+    }
+}
+
+const MTIME_RELS: [u64; 8] = [0, 0, 0, 1, 2, 3, 4, 5];
+
+fn mt_tokens(rng: &mut Rng, rel: u64, stats: &mut Stats) -> String {
+    let (d, n) = gen_mtimes(rng, rel);
+    stats.hit(format!("mtime.rel{rel}"));
+    if rel != 0 && rng.chance(1, 12) {
+        stats.hit("mtime.node-without");
+        format!("{}.{} ~", d.0, d.1)
+    } else {
+        format!("{}.{} {}.{}", d.0, d.1, n.0, n.1)
+    }
+}
+
 pub fn generate(thorough: bool, rng: &mut Rng, ops: &mut Vec<String>, stats: &mut Stats) {
     let n_file = if thorough { 4000 } else { 120 };
     for _ in 0..n_file {
@@ -880,16 +1014,33 @@ pub fn generate(thorough: bool, rng: &mut Rng, ops: &mut Vec<String>, stats: &mu
                 Some(vec![0xff; len + 3])
             }
         };
-        let (v, s, m) = (rng.chance(1, 2), rng.chance(1, 2), rng.chance(1, 3));
-        stats.hit(format!("opts.v{}s{}m{}", u8::from(v), u8::from(s), u8::from(m)));
+        let (v, s, rel) = (rng.chance(1, 2), rng.chance(1, 2), *rng.pick(&MTIME_RELS));
+        stats.hit(format!("opts.v{}s{}m{}", u8::from(v), u8::from(s), u8::from(rel == 0)));
         ops.push(format!(
             "c14 file {chunk} {} {} {} {} {}",
             hex(&content),
             old.map_or("~".to_string(), |o| hex(&o)),
             u8::from(v),
             u8::from(s),
-            u8::from(m)
+            mt_tokens(rng, rel, stats)
         ));
+    }
+    // mtime grid: a destination file of the node's SIZE — other content / identical content — whose mtime is equal to the node's to
+    // the nanosecond, differs only in the nanosecond part (both directions), by whole seconds (both directions), or across a second
+    // boundary × verify-existing on/off (sparse random).  Only "verify off ∧ equal to the nanosecond" may keep the other content.
+    for _ in 0..if thorough { 20 } else { 1 } {
+        for rel in 0..6u64 {
+            for v in [false, true] {
+                for same in [false, true] {
+                    let chunk = *rng.pick(&[4usize, 8, 16]);
+                    let len = 1 + rng.below(3 * chunk as u64) as usize;
+                    let content = rng.bytes(len);
+                    let old = if same { content.clone() } else { content.iter().map(|b| b ^ 0x5a).collect() };
+                    stats.hit(format!("mtime-grid.rel{rel}.v{}.{}", u8::from(v), if same { "identical" } else { "other-content" }));
+                    ops.push(format!("c14 file {chunk} {} {} {} {} {}", hex(&content), hex(&old), u8::from(v), u8::from(rng.chance(1, 3)), mt_tokens(rng, rel, stats)));
+                }
+            }
+        }
     }
     // zero-block grid (sparse restore): all-zero files and files whose first / last / only blocks are zero (Z = zero blob,
     // N = non-zero blob, z / n = short tail) × sparse on/off × destination {absent, empty, shorter, longer, same size with
@@ -927,7 +1078,7 @@ pub fn generate(thorough: bool, rng: &mut Rng, ops: &mut Vec<String>, stats: &mu
                         4 => Some(if alt { vec![0xff; len] } else { rng.bytes(len).into_iter().map(|b| b | 2).collect() }),
                         _ => Some(vec![0; len]),
                     };
-                    let (v, m) = (rng.chance(1, 2), rng.chance(1, 3));
+                    let (v, rel) = (rng.chance(1, 2), *rng.pick(&MTIME_RELS));
                     stats.hit(format!("zero-grid.{}.dst{dst}.s{}", if pat.bytes().all(|c| c.eq_ignore_ascii_case(&b'z')) { "all-zero" } else { "mixed" }, u8::from(sparse)));
                     ops.push(format!(
                         "c14 file {chunk} {} {} {} {} {}",
@@ -935,7 +1086,7 @@ pub fn generate(thorough: bool, rng: &mut Rng, ops: &mut Vec<String>, stats: &mu
                         old.map_or("~".to_string(), |o| hex(&o)),
                         u8::from(v),
                         u8::from(sparse),
-                        u8::from(m)
+                        mt_tokens(rng, rel, stats)
                     ));
                 }
             }
